@@ -14,6 +14,12 @@ PLAN = {
         "R17 shim for `h.clear_with(|xs| values.extend(..))`, R18 `.into()` -> `T::from(..)`, R13 closure tuple pattern, SPEC-closure annotation on the counter closure; R2 loop desugaring over the IndexMap iterator stub",
         "metrics::{Key, KeyName, Unit, SharedString}, ordered_float::OrderedFloat are opaque stubs",
     ],
+    # plain tests on the real crate, run only when the named obligation failed (replay) or was demoted to undecided by the
+    # closure / lost-ghost rule (then a failing witness confirms the violation, see DESIGN 0.2)
+    "witnesses": [
+        {"match": r"fn describe_metric", "src": "witness_unit_kept.rs", "crate": "metrics-util", "file": "metrics-util/src/debugging.rs"},
+        {"match": r"Snapshotter :: fn snapshot", "src": "witness_registered_listed.rs", "crate": "metrics-util", "file": "metrics-util/src/debugging.rs"},
+    ],
     "verus": [
         {"template": "debugging.verus.rs", "tier": "quick", "rlimit": 60, "min_functions": 8},
     ],
